@@ -62,14 +62,21 @@ structure State (σ Out : Type) where
   filtering : Bool
   /-- model clock standing for `Instant::now()` -/
   clock : Nat
-  /-- what a listener registered from the start has been told, in order -/
+  /-- what a listener registered from the start (and never removed) has been told, in order -/
   events : List Event
+  /-- `listeners: HashMap<u64, Box<dyn MultiReceiverListener>>`: id ↦ what that listener has been told so far -/
+  listeners : List (Nat × List Event)
+  /-- `listeners_id` -/
+  listenersId : Nat
+  /-- ghost: the logs of listeners that were removed, as they stood at removal -/
+  retired : List (Nat × List Event)
   /-- receiver outputs in order: (key the session is stored under, key carried by the callbacks, output) -/
   outs : List (Key × Key × Out)
 
 /-- `MultiReceiver::new(writer, config, enable_tsi_filtering)` -/
 def State.new {σ Out : Type} (filtering : Bool) : State σ Out :=
-  { table := [], filter := Filter.new, filtering := filtering, clock := 0, events := [], outs := [] }
+  { table := [], filter := Filter.new, filtering := filtering, clock := 0, events := [], listeners := [],
+    listenersId := 0, retired := [], outs := [] }
 
 inductive Op (π : Type)
   /-- `push(endpoint, pkt, now)`; `none` = `parse_alc_pkt` fails -/
@@ -83,6 +90,10 @@ inductive Op (π : Type)
   | addAll (ep : Endpoint)
   | removeAll (ep : Endpoint)
   | setFiltering (b : Bool)
+  /-- `add_listener(listener)` (returns `listeners_id`, then increments it) -/
+  | addListener
+  /-- `remove_listener(id)` -/
+  | removeListener (id : Nat)
   /-- `Drop for MultiReceiver` (afterwards the table is empty) -/
   | drop
 
@@ -104,6 +115,10 @@ deriving DecidableEq, Repr
 
 variable {σ π Out : Type}
 
+/-- `for listener in self.listeners.values() { listener.on_session_...(key) }` for a batch of events -/
+def tell (ls : List (Nat × List Event)) (evs : List Event) : List (Nat × List Event) :=
+  ls.map (fun e => (e.1, e.2 ++ evs))
+
 /-- `MultiReceiver::push` -/
 def push (M : Machine σ π Out) (s : State σ Out) (ep : Endpoint) : Option (Pkt π) → State σ Out × Res
   | none => (s, .parseErr)
@@ -116,6 +131,7 @@ def push (M : Machine σ π Out) (s : State σ Out) (ep : Endpoint) : Option (Pk
         let r := M.push s.clock se.st pkt
         ({ s with table := AL.del s.table key,
                   events := s.events ++ [.closed key],
+                  listeners := tell s.listeners [.closed key],
                   outs := s.outs ++ [(key, se.key, r.2)] }, .done)
       | none => (s, .noSession)
     else
@@ -130,6 +146,7 @@ def push (M : Machine σ π Out) (s : State σ Out) (ep : Endpoint) : Option (Pk
         let r := M.push s.clock se.st pkt
         ({ s with table := AL.set s.table key { se with st := r.1 },
                   events := s.events ++ [.opened key],
+                  listeners := tell s.listeners [.opened key],
                   outs := s.outs ++ [(key, se.key, r.2)] }, .done)
 
 /-- `MultiReceiver::cleanup` (after `fix: evaluate session expiry once in MultiReceiver::cleanup`):
@@ -141,11 +158,13 @@ def cleanup (M : Machine σ π Out) (s : State σ Out) (now : Nat) : State σ Ou
   { s with
     table := kept.map (fun e => (e.1, { e.2 with st := (M.cleanup s.clock now e.2.st).1 })),
     outs := s.outs ++ kept.map (fun e => (e.1, e.2.key, (M.cleanup s.clock now e.2.st).2)),
-    events := s.events ++ gone.map (fun e => Event.closed e.1) }
+    events := s.events ++ gone.map (fun e => Event.closed e.1),
+    listeners := tell s.listeners (gone.map (fun e => Event.closed e.1)) }
 
 /-- `Drop for MultiReceiver`: `on_session_closed` for every key of the table -/
 def drop (s : State σ Out) : State σ Out :=
-  { s with table := [], events := s.events ++ s.table.map (fun e => Event.closed e.1) }
+  { s with table := [], events := s.events ++ s.table.map (fun e => Event.closed e.1),
+           listeners := tell s.listeners (s.table.map (fun e => Event.closed e.1)) }
 
 def step (M : Machine σ π Out) (s : State σ Out) : Op π → State σ Out × Res
   | .push ep p => push M s ep p
@@ -162,6 +181,13 @@ def step (M : Machine σ π Out) (s : State σ Out) : Op π → State σ Out × 
     | .error _ => (s, .panic)
   | .removeAll ep => ({ s with filter := TsiFilter.removeEndpointBypass s.filter ep }, .unit)
   | .setFiltering b => ({ s with filtering := b }, .unit)
+  | .addListener =>
+    ({ s with listeners := AL.set s.listeners s.listenersId [], listenersId := s.listenersId + 1 }, .unit)
+  | .removeListener id =>
+    ({ s with listeners := AL.del s.listeners id,
+              retired := match AL.get s.listeners id with
+                | some l => s.retired ++ [(id, l)]
+                | none => s.retired }, .unit)
   | .drop => (drop s, .unit)
 
 /-- a whole history -/
@@ -183,6 +209,7 @@ def cleanup (M : Machine σ π Out) (s : State σ Out) (now dt : Nat) : State σ
     table := kept.map (fun e => (e.1, { e.2 with st := (M.cleanup (s.clock + dt) now e.2.st).1 })),
     outs := s.outs ++ kept.map (fun e => (e.1, e.2.key, (M.cleanup (s.clock + dt) now e.2.st).2)),
     events := s.events ++ notified.map (fun e => Event.closed e.1),
+    listeners := tell s.listeners (notified.map (fun e => Event.closed e.1)),
     clock := s.clock + dt }
 
 end PreFix
